@@ -379,7 +379,7 @@ def main(run, shard=(0, 1)) -> None:
         'EntityFixup.copy_values': (vm, 'EntityFixup.copy_values'),
     })
     probe.start()
-    n = 6000 if run.tier == 'thorough' else 200
+    n = 40000 if run.tier == "thorough" else 200
     for i in range(n):
         if mine(i, shard):
             one_case(run, run.seed, i)
